@@ -49,7 +49,12 @@ func (m *monC09c) AfterBlock(c *Chain, req *abci.RequestFinalizeBlock, res *abci
 		m.st[id] = s
 	}
 	ck := c.CApp.ConsumerKeeper
-	delay := ck.GetRetryDelayPeriod(c.Ctx())
+	// the retry delay as configured in the consumer's parameters (read from the stored parameters, not through the getter the
+	// sending logic uses)
+	delay := ck.GetConsumerParams(c.Ctx()).RetryDelayPeriod
+	if w.Cfg.RetryDelay > 0 && delay != w.Cfg.RetryDelay {
+		w.Violation("C09", "stored-retry-delay-differs-from-genesis", map[string]any{"consumer": id, "stored": delay.String(), "genesis": w.Cfg.RetryDelay.String()})
+	}
 	// acknowledgements delivered in this block (txs run before EndBlock, where packets are sent)
 	for _, o := range txs {
 		if !o.OK() {
